@@ -77,8 +77,9 @@ fn one_vector(an: &[u32], ns: &[u32], ar: &[u32]) -> (u64, String, Vec<Violation
             let mut n = 0u64;
             let mut h = Harness::new();
             let exp = h.calculate_expiry(&reply);
-            if exp != Duration::from_secs(m) {
-                out.push(("expiry-is-min-ttl", format!("calculate_expiry = {:?} but the smallest TTL over all three sections is {m}s (TTLs {:?})", exp, ttls)));
+            // a lifetime shorter than the smallest TTL is merely conservative; longer is the violation
+            if exp > Duration::from_secs(m) {
+                out.push(("expiry-exceeds-min-ttl", format!("calculate_expiry = {:?} but the smallest TTL over all three sections is {m}s (TTLs {:?})", exp, ttls)));
             }
             // what handle_query does: only cache if the lifetime is positive
             let cached = exp > Duration::ZERO;
